@@ -106,7 +106,13 @@ class ArgumentHasher:
             return [ArgumentHasher._encode(x) for x in arg]
 
         if isinstance(arg, dict):
-            return {k: ArgumentHasher._encode(v) for (k, v) in arg.items()}
+            encoded = {k: ArgumentHasher._encode(v) for (k, v) in arg.items()}
+            if "_mementoType" in arg:
+                # The key is what marks an encoded date, datetime or function reference. A plain
+                # dict that carries it is wrapped, so that it is not taken for one of those (it
+                # would share their argument hash and reach the function as that type).
+                return {"_mementoType": "dict", "value": encoded}
+            return encoded
 
         if isinstance(arg, MementoFunctionType):
             fn_reference = arg.fn_reference()  # type: FunctionReference
@@ -167,6 +173,10 @@ class ArgumentHasher:
                     return date_parser.isoparse(arg["iso8601"])
                 elif memento_type == "date":
                     return date_parser.isoparse(arg["iso8601"]).date()
+                elif memento_type == "dict":
+                    return {
+                        k: ArgumentHasher._decode(v) for (k, v) in arg["value"].items()
+                    }
                 else:
                     raise ValueError("Unknown memento type {}".format(memento_type))
             else:
